@@ -829,7 +829,10 @@ fn describe(case: &Case) -> String {
 fn switch_sets() -> &'static [u16] {
     static SETS: std::sync::OnceLock<Vec<u16>> = std::sync::OnceLock::new();
     SETS.get_or_init(|| {
-        let mut sets: Vec<u16> = (1u16..256).collect();
+        // defects repaired in /repo by fix: commits are no longer candidate explanations:
+        // if the old behaviour returns it matches no signature and is reported
+        const FIXED: u16 = F_SWAP;
+        let mut sets: Vec<u16> = (1u16..256).filter(|s| s & FIXED == 0).collect();
         sets.sort_by_key(|s| (s.count_ones(), *s));
         sets
     })
